@@ -51,14 +51,20 @@ def fx_to_abs(graph: fx.Graph, ids: Optional[Dict[str, int]] = None, with_metric
     """Project an FX graph. `ids` maps node names to ids (extended with fresh ids for unknown names)."""
     ids = dict(ids or {})
     nxt = max(ids.values(), default=0) + 1
+
+    def key(n: fx.Node) -> str:
+        # fx keeps node names across deepcopy EXCEPT the output node's, which is re-created under the default name ("output", or
+        # "output_1" while a call node holds that name): the output node is identified by its kind, every other node by its name
+        return "<output>" if n.op == "output" else n.name
+
     for n in graph.nodes:
-        if n.name not in ids:
-            ids[n.name] = nxt
+        if key(n) not in ids:
+            ids[key(n)] = nxt
             nxt += 1
     out = []
     for n in graph.nodes:
         rec: Dict[str, Any] = {
-            "id": ids[n.name],
+            "id": ids[key(n)],
             "op": {"call_function": "call", "call_method": "call", "call_module": "call"}.get(n.op, n.op),
             "tgt": target_name(n.target) if n.op != "output" else "output",
             "args": [enc_arg(a, ids) for a in n.args],
@@ -178,8 +184,10 @@ class Builder:
         else:
             raise ValueError(k)
 
-    def finish(self, n_out: int = 1) -> fx.GraphModule:
+    def finish(self, n_out: int = 1, name_output: bool = False) -> fx.GraphModule:
         outs = [self.floats[-1]]
+        if name_output and outs[0].op != "placeholder":
+            outs[0]._rename("output")     # a call node NAMED "output" (what TorchDynamo does for `output = f(x)`); the output node becomes "output_1"
         while len(outs) < n_out:
             c = self.rng.choice(self.floats)
             if c not in outs:
@@ -193,12 +201,12 @@ TRACK_VOCAB = ["neg", "neg_kw", "reshape", "reshape_size", "flip", "mul2", "near
                "stack_sum", "rotate_half", "linear", "index", "index_kw", "where", "where_kw", "detach_branch", "cat_kwlist", "stack_kwlist"]
 
 
-def random_tracked_module(rng: random.Random, n_ops: int, vocab: Optional[List[str]] = None) -> Tuple[fx.GraphModule, int, int]:
+def random_tracked_module(rng: random.Random, n_ops: int, vocab: Optional[List[str]] = None, name_output: bool = False) -> Tuple[fx.GraphModule, int, int]:
     b = Builder(rng, n_inputs=rng.choice([1, 1, 2]))
     for _ in range(n_ops):
         b.add_op(vocab or TRACK_VOCAB)
     n_out = rng.choice([1, 1, 2])
-    return b.finish(n_out), b.n_inputs, n_out
+    return b.finish(n_out, name_output), b.n_inputs, n_out
 
 
 def int_inputs(rng: random.Random, n: int, with_zeros: bool = True) -> List[torch.Tensor]:
